@@ -36,7 +36,7 @@ pub fn run(ctx: &mut Ctx) {
     for (n, ok) in r9::selftest(false) {
         ctx.selftest(&n, ok);
     }
-    ctx.require(&["ha=q(N-1)+r", "ha_r=0", "ha_r=N-2", "ha_top_limb_ones", "ha_all_ff", "ha_random", "ha_64_bytes", "ha_small", "h1", "h2", "extract_sign", "extract_enc", "extract_exch", "extract_fails_when_t1=0", "extract_ok_next_to_failure", "annex_keys", "id_empty", "id_long", "h1_same_id_all_hids", "ha_r_limb_ladder", "t1_limb_ladder", "t1_carry_chain", "id_beyond_2^16_bits", "extract_id_beyond_2^16_bits", "t2_near_group_order", "t2_table_scalar", "h1_h2_length_sweep"]);
+    ctx.require(&["ha=q(N-1)+r", "ha_r=0", "ha_r=N-2", "ha_top_limb_ones", "ha_all_ff", "ha_random", "ha_64_bytes", "ha_small", "h1", "h2", "extract_sign", "extract_enc", "extract_exch", "extract_fails_when_t1=0", "extract_ok_next_to_failure", "annex_keys", "id_empty", "id_long", "h1_same_id_all_hids", "ha_r_limb_ladder", "t1_limb_ladder", "t1_carry_chain", "id_beyond_2^16_bits", "extract_id_beyond_2^16_bits", "t2_near_group_order", "t2_table_scalar", "h1_h2_length_sweep", "id_with_nul_bytes"]);
     let pr = r9::params();
     let nm1 = &pr.n - 1u32;
     let two320: BigUint = BigUint::one() << 320;
@@ -239,6 +239,20 @@ pub fn run(ctx: &mut Ctx) {
                 ctx.class("t1_limb_ladder");
                 ctx.class(&format!("t1_ladder:{}", pat));
                 extract_case(ctx, &k, &id, hid, "t1_limb_ladder");
+            }
+        }
+    }
+    // --- identities containing NUL bytes, trailing blanks or newlines, non-UTF-8 bytes (hashed exactly as given)
+    {
+        let mut pl = ctx.prng("nul_ids");
+        for (k, id) in [b"Bob\0".to_vec(), b"\0Bob".to_vec(), b"Bo\0b".to_vec(), vec![0u8], vec![0u8; 4], b"Bob\0\0".to_vec(), b"Bob ".to_vec(), b" Bob".to_vec(), b"Bob\n".to_vec(), vec![0xffu8, 0xfe, 0x80]].iter().enumerate() {
+            let kk = scalar_for(&mut pl, 100);
+            if !ctx.mine(k as u64) {
+                continue;
+            }
+            for hid in [1u8, 2, 3] {
+                ctx.class("id_with_nul_bytes");
+                extract_case(ctx, &kk, id, hid, "id_with_nul_bytes");
             }
         }
     }
